@@ -44,7 +44,9 @@ func linTypes() []linType {
 		{"heap", []string{"lt"}, [][]string{{}, {"push 2"}, {"push 1", "push 3"}},
 			[]string{"push 1", "push 2", "pop", "peek", "size", "clear", "delete 2"},
 			[]string{"size", "values", "pop", "pop", "pop", "pop", "size"}},
-		{"bst", []string{"lt"}, [][]string{{}, {"upsert 1 7"}, {"upsert 1 7", "upsert 2 8"}},
+		// fourth initial state: the key the programs upsert and delete sits in a node with two children (its removal
+		// copies the in-order successor into that node)
+		{"bst", []string{"lt"}, [][]string{{}, {"upsert 1 7"}, {"upsert 1 7", "upsert 2 8"}, {"upsert 2 8", "upsert 1 7", "upsert 3 9"}},
 			[]string{"upsert 1 5", "upsert 2 6", "get 1", "delete 1", "delete 2", "size"},
 			[]string{"size", "traverse", "get 1", "get 2"}},
 		{"trie", nil, [][]string{{}, {"put x61 7"}, {"put x6162 7"}},
